@@ -35,6 +35,12 @@ func liveRun(entS string, peers []string, hdr string) vlib.Res {
 	l.Stub.Set(func(req *dns.Msg) *dns.Msg {
 		m := new(dns.Msg)
 		m.SetReply(req)
+		// a cacheable answer: whatever a front end may remember of it must not
+		// stand in for the access decision of the next source
+		if len(req.Question) == 1 && req.Question[0].Qtype == dns.TypeA {
+			rr, _ := dns.NewRR(req.Question[0].Name + " 60 IN A 192.0.2.77")
+			m.Answer = []dns.RR{rr}
+		}
 		return m
 	})
 	q := new(dns.Msg)
@@ -135,9 +141,13 @@ func liveRun(entS string, peers []string, hdr string) vlib.Res {
 		}
 	}
 	// the DoH handler, any peer
-	pk, _ := q.Pack()
+	q0 := q.Copy()
+	q0.Id = 0 // the cache-friendly form RFC 8484 recommends: byte-identical for every client
+	pk, _ := q0.Pack()
 	var dohs []string
-	for _, ps := range peers {
+	// two passes: whoever asks second has been preceded by every other peer
+	for pass, list := 0, append(append([]string(nil), peers...), peers...); pass < len(list); pass++ {
+		ps := list[pass]
 		a := parseAddr(ps)
 		before := l.Stub.Calls.Load()
 		r := httptest.NewRequest(http.MethodGet, "/dns-query?dns="+base64.RawURLEncoding.EncodeToString(pk), nil)
@@ -156,7 +166,9 @@ func liveRun(entS string, peers []string, hdr string) vlib.Res {
 		body := rec.Body.Bytes()
 		m := new(dns.Msg)
 		got := rec.Code == 200 && len(body) >= 12 && m.Unpack(body) == nil && m.Response
-		dohs = append(dohs, vlib.B(got))
+		if pass < len(peers) {
+			dohs = append(dohs, vlib.B(got))
+		}
 		allowed := naive(es, a)
 		if !allowed && (got || l.Stub.Calls.Load() != before) {
 			fail(fmt.Sprintf("live/doh/denied-source-served hdr=%s", hdr))
